@@ -516,6 +516,19 @@ pub fn oracle_c09(cfg: &EwCfg, tr: &EwTrace) -> Vec<Violation> {
                     out.push(viol("C09.budget", "C09.budget:server".into(), format!("server/client {}: a disconnect request was first transmitted at t={} ms but the server had no terminal event for it by t={} ms (got {:?})", i, t0, t0 + budget, s_term)));
                 }
             }
+            // (c) Error(Timeout) is the terminal event only if the peer has become unreachable: with both objects alive, no blackout,
+            // steps at most 2 s apart, at most three datagrams between the two lost or held long, and the default 20 s time-outs, the
+            // ten disconnect retries cannot all fail, so both ends must finish with Disconnect
+            let bad = tr.wire.iter().filter(|d| !d.injected && (d.src == caddr(i) || d.dst == caddr(i)) && matches!(d.fate, DFate::Drop | DFate::HoldLong)).count();
+            let gap_all = tr.obs.windows(2).map(|w| w[1].t_ms - w[0].t_ms).max().unwrap_or(0);
+            let reconnects = tr.calls.iter().filter(|c| matches!(c.act, Act::Connect(k) if k == i)).count() > 1;
+            if tr.blackout.is_none() && !s_dropped && !c_forgot && !reconnects && bad <= 3 && gap_all <= 2000 && cfg.clients[i].active_timeout_ms >= 20_000 && cfg.server.active_timeout_ms >= 20_000 && cfg.clients[i].keepalive_interval_ms <= 5000 && cfg.server.keepalive_interval_ms <= 5000 {
+                for (who, evs) in [("client", &tr.cev[i]), ("server", &tr.sev[i])] {
+                    if let Some(e) = evs.iter().find(|e| e.ev == Ev::Error(0) && e.round >= r0) {
+                        out.push(viol("C09.budget", format!("C09.spurious-timeout:{}", who), format!("{} {}: a disconnect request was first transmitted in round {}; only {} datagrams were lost or held long, steps were at most {} ms apart and both endpoints stayed alive, yet the {} ended with Error(Timeout) in round {} (t={} ms) instead of Disconnect", who, i, r0, bad, gap_all, who, e.round, e.t_ms)));
+                    }
+                }
+            }
         }
     }
     out
